@@ -17,6 +17,16 @@
 //   addme i me      sp_i << (handle of the coroutine that will later `await` with id me): in mode c me is the driver
 //                   coroutine (99) itself, in mode n a persistent awaiting coroutine `me` (>= number of counters)
 //   ctorself i me   mode c only: slot i = co_await cocls::self()   (the library's idiom to obtain the own handle)
+//   -- faults: allocation failure (the replaced operator new[] throws std::bad_alloc once) and exceptions out of callables --
+//   addhf i h       sp_i << h while the next new[] fails; head `threw` when std::bad_alloc came out (caught by the caller), else `ok`
+//   mrgf i j k      sp_i << std::move(sp_j) while the (k+1)-th new[] of the operation fails; head `threw` / `ok`
+//   asgf i j k      sp_i = std::move(sp_j) likewise (sp_i a suspend_point<void>: the base assignment forwards to operator<<)
+//   call j|- h...   coro_queue::install_queue_and_call(fn) from the code that performs the operations; fn makes the coroutines h...
+//                   ready (coro_queue::resume), then clears sp_j (if given) and returns
+//   callx j|- h...  the same, but fn ends by throwing; the exception is caught by the caller: head `threw`
+//   cspx h...       coro_queue::create_suspend_point(fn) with fn making h... ready and then throwing (no suspend point is
+//                   created); head `threw`
+//   act             head `act 0|1`: coro_queue::is_active() as seen by the code that performs the operations
 //
 // output line:  <head> | <size of every slot, '-' = no object> [; events in order of occurrence]
 // events: r<id> coroutine <id> resumed, n<k> new Ptr[k], d<k> delete[] of a block of k cells, dBAD delete[] of
@@ -43,7 +53,10 @@ static std::vector<std::string> g_evs;
 static bool g_track = false;
 static std::map<void *, std::size_t> *g_live = nullptr;   // blocks allocated by new[] while tracking
 
+static long g_fail_at = -1;   // fault plan: >= 0 = the (g_fail_at+1)-th tracked new[] from now throws std::bad_alloc (once)
+
 void *operator new[](std::size_t sz) {
+    if (g_track && g_fail_at >= 0 && g_fail_at-- == 0) throw std::bad_alloc();
     void *p = std::malloc(sz ? sz : 1);
     if (!p) throw std::bad_alloc();
     if (g_track) {
@@ -119,6 +132,19 @@ struct Val {
 using SPV = cocls::suspend_point<void>;
 using SPI = cocls::suspend_point<Val>;
 
+// read-only look at the handles a suspend point holds (begin()/end() are protected)
+struct Peek : SPV {
+    using SPV::VN_suspend_point_begin;
+    using SPV::VN_suspend_point_end;
+};
+static bool holds(SPV &sp, void *addr) {
+    Peek &p = static_cast<Peek &>(sp);
+    for (auto it = p.VN_suspend_point_begin(); it != p.VN_suspend_point_end(); ++it)
+        if (*it == addr) return true;
+    return false;
+}
+
+struct fn_failed {};   // thrown by the callables of call / callx / cspx
 struct unwinding {};   // thrown to leave a scope: everything destroyed on the way is destroyed during stack unwinding
 
 struct Slot {
@@ -349,6 +375,93 @@ static Act exec(Ctx &c, const std::vector<std::string> &w, std::string &head, in
             }));
             c.slots[i].kind = 2;
         }
+    } else if (op == "addhf") {
+        auto h = c.handle(num(2));
+        if (!c.live(i) || !h) return Act::bad;
+        g_fail_at = 0;
+        try {
+            c.slots[i].base() << std::move(h);
+        } catch (const std::bad_alloc &) {
+            head = "threw";
+        }
+        g_fail_at = -1;
+    } else if (op == "mrgf" || op == "asgf") {
+        int k = num(3);
+        if (!c.live(i) || !c.live(j) || k < 0) return Act::bad;
+        if (op == "asgf" && c.slots[i].kind != 1) return Act::bad;
+        g_fail_at = k;
+        try {
+            if (op == "mrgf") c.slots[i].base() << std::move(c.slots[j].base());
+            else c.slots[i].v() = std::move(c.slots[j].base());
+        } catch (const std::bad_alloc &) {
+            head = "threw";
+        }
+        g_fail_at = -1;
+    } else if (op == "call" || op == "callx") {
+        if (w.size() < 2) return Act::bad;
+        int tgt = -1;
+        if (w[1] != "-") {
+            tgt = num(1);
+            if (!c.live(tgt)) return Act::bad;
+        }
+        std::vector<std::coroutine_handle<>> hs;
+        for (std::size_t k = 2; k < w.size(); ++k) {
+            auto h = c.handle(atoi(w[k].c_str()));
+            if (!h) return Act::bad;
+            hs.push_back(h);
+        }
+        if (c.coro_mode && cocls::coro_queue::instance) {
+            // the queue is flushed while the driver coroutine is running: its own handle must not be waiting there
+            for (auto q : cocls::coro_queue::instance->_queue) if (q == c.driver_h) return Act::bad;
+        }
+        if (c.coro_mode && tgt >= 0 && holds(c.slots[tgt].base(), c.driver_h.address())) return Act::bad;
+        bool thr = op == "callx";
+        try {
+            if (hs.size() % 2 == 0) {
+                cocls::coro_queue::install_queue_and_call([&] {
+                    for (auto h : hs) cocls::coro_queue::resume(h);
+                    if (tgt >= 0) c.slots[tgt].base().clear();
+                    if (thr) throw fn_failed{};
+                });
+            } else {
+                // a callable with an argument and a result
+                int r = cocls::coro_queue::install_queue_and_call([&](int x) {
+                    for (auto h : hs) cocls::coro_queue::resume(h);
+                    if (tgt >= 0) c.slots[tgt].base().clear();
+                    if (thr) throw fn_failed{};
+                    return x + 1;
+                }, 41);
+                if (r != 42) head = "call ?";
+            }
+        } catch (const fn_failed &) {
+            head = "threw";
+        }
+    } else if (op == "cspx") {
+        std::vector<std::coroutine_handle<>> hs;
+        for (std::size_t k = 1; k < w.size(); ++k) {
+            auto h = c.handle(atoi(w[k].c_str()));
+            if (!h) return Act::bad;
+            hs.push_back(h);
+        }
+        try {
+            if (hs.size() % 2 == 0) {
+                SPV sp(cocls::coro_queue::create_suspend_point([&] {
+                    for (auto h : hs) cocls::coro_queue::resume(h);
+                    throw fn_failed{};
+                }));
+                head = "cspx ?";
+            } else {
+                SPI sp(cocls::coro_queue::create_suspend_point([&]() -> Val {
+                    for (auto h : hs) cocls::coro_queue::resume(h);
+                    throw fn_failed{};
+                }));
+                head = "cspx ?";
+            }
+        } catch (const fn_failed &) {
+            head = "threw";
+        }
+    } else if (op == "act") {
+        head = std::string("act ") + (cocls::coro_queue::is_active() ? "1" : "0");
     } else if (op == "size") {
         if (!c.live(i)) return Act::bad;
         head = "size " + std::to_string(c.slots[i].base().size());
